@@ -304,6 +304,7 @@ func rulesC13(w *World, r *Report) {
 	// and an unrepresentable member in it — is never visited
 	{
 		reach := w.reachPkg(w.encoderRoots()...)
+		w.ruleCommaOkSides(r, "C13.R8 a looked-up name or ordinal is used on the side where the lookup succeeded", 2, func(fn *ssa.Function) bool { return reach[fn] || reach[rootFn(fn)] })
 		w.ruleAccessorKinds(r, "C13.R3 reflect accessors on the encode path meet the kind they require", func(fn *ssa.Function) bool { return reach[fn] || reach[rootFn(fn)] })
 		w.ruleLoopsProgress(r, "C13.R7 every loop on the encode path makes progress", 6, func(fn *ssa.Function) bool { return reach[fn] || reach[rootFn(fn)] })
 	}
